@@ -162,6 +162,12 @@ Definition atom_toks (a : atom) : list tok :=
 Definition seq_repr (items : list (list tok)) : list tok :=
   TLP :: join_toks [TComma] items ++ [TRP].
 Definition insub_op (neg : bool) : list tok := if neg then [TNot; TIn] else [TIn].
+(* INSubquery.__sqlrepr__: "item IN (subquery)"; parenthesised as a whole when the
+   item's own text starts with "(" (SQLOp would otherwise take the leading "(" of
+   the item for a parenthesis around everything) *)
+Definition insub_repr (op item sub : list tok) : list tok :=
+  let s := item ++ op ++ [TLP] ++ sub ++ [TRP] in
+  if is_lp_headed item then TLP :: s ++ [TRP] else s.
 
 Fixpoint render (d : dialect) (n : node) : list tok :=
   match n with
@@ -175,7 +181,7 @@ Fixpoint render (d : dialect) (n : node) : list tok :=
       else [TFn FMod; TLP] ++ render d a ++ [TComma] ++ render d b ++ [TRP]
   | NSQLCall2 f a b => TFn f :: seq_repr [render d a; render d b]
   | NSQLPrefix p a => prefixtoks p ++ render d a
-  | NINSubquery neg a s => render d a ++ insub_op neg ++ [TLP] ++ render d s ++ [TRP]
+  | NINSubquery neg a s => insub_repr (insub_op neg) (render d a) (render d s)
   | NBad => [TBad]
   end.
 
@@ -267,6 +273,147 @@ Fixpoint show (ts : list tok) : list N :=
       | [] => tok_text t
       | u :: _ => tok_text t ++ (if nospace t u then [] else [32%N]) ++ show r
       end
+  end.
+
+(* ================================================================ a reference SQL lexer *)
+(* maximal munch over code points: spaces, ( ) , the operator characters,
+   <= >= <>, quoted strings with doubled quotes, digit runs, words.  Words are
+   classified through a table of the word-like tokens (keywords, MOD, the
+   columns of the schema).  Fuel = the number of characters (one is consumed per
+   step); LFuel / LErr are explicit outcomes. *)
+Definition between (lo hi c : N) : bool := N.leb lo c && N.leb c hi.
+Definition is_digit (c : N) : bool := between 48 57 c.
+Definition is_alpha (c : N) : bool := between 65 90 c || between 97 122 c || N.eqb c 95.
+Definition is_word_char (c : N) : bool := is_alpha c || is_digit c || N.eqb c 46.
+
+Fixpoint span (p : N -> bool) (cs : list N) : list N * list N :=
+  match cs with
+  | [] => ([], [])
+  | c :: r => if p c then let (a, b) := span p r in (c :: a, b) else ([], cs)
+  end.
+Definition digit_uint (c : N) (u : Decimal.uint) : option Decimal.uint :=
+  match c with
+  | 48%N => Some (Decimal.D0 u) | 49%N => Some (Decimal.D1 u) | 50%N => Some (Decimal.D2 u)
+  | 51%N => Some (Decimal.D3 u) | 52%N => Some (Decimal.D4 u) | 53%N => Some (Decimal.D5 u)
+  | 54%N => Some (Decimal.D6 u) | 55%N => Some (Decimal.D7 u) | 56%N => Some (Decimal.D8 u)
+  | 57%N => Some (Decimal.D9 u)
+  | _ => None
+  end.
+Fixpoint digits_uint (ds : list N) : option Decimal.uint :=
+  match ds with
+  | [] => Some Decimal.Nil
+  | c :: r => match digits_uint r with Some u => digit_uint c u | None => None end
+  end.
+(* the body of a string literal, after the opening quote *)
+Fixpoint scan_str (cs : list N) : option (list N * list N) :=
+  match cs with
+  | [] => None
+  | c :: r =>
+      if N.eqb c 39 then
+        match r with
+        | c2 :: r2 =>
+            if N.eqb c2 39
+            then match scan_str r2 with Some (s, rest) => Some (39%N :: s, rest) | None => None end
+            else Some ([], r)
+        | [] => Some ([], [])
+        end
+      else match scan_str r with Some (s, rest) => Some (c :: s, rest) | None => None end
+  end.
+Definition classify (words : list tok) (w : list N) : option tok :=
+  find (fun t => codes_eqb (tok_text t) w) words.
+
+Inductive lres := LOk (l : list tok) | LErr | LFuel.
+Definition lcons (t : tok) (r : lres) : lres := match r with LOk l => LOk (t :: l) | e => e end.
+
+Fixpoint lex_f (words : list tok) (f : nat) (cs : list N) {struct f} : lres :=
+  match f with
+  | O => LFuel
+  | S f' =>
+      match cs with
+      | [] => LOk []
+      | c :: r =>
+          if N.eqb c 32 then lex_f words f' r
+          else if N.eqb c 40 then lcons TLP (lex_f words f' r)
+          else if N.eqb c 41 then lcons TRP (lex_f words f' r)
+          else if N.eqb c 44 then lcons TComma (lex_f words f' r)
+          else if N.eqb c 43 then lcons (TOp BAdd) (lex_f words f' r)
+          else if N.eqb c 45 then lcons (TOp BSub) (lex_f words f' r)
+          else if N.eqb c 42 then lcons (TOp BMul) (lex_f words f' r)
+          else if N.eqb c 47 then lcons (TOp BDiv) (lex_f words f' r)
+          else if N.eqb c 37 then lcons (TOp BMod) (lex_f words f' r)
+          else if N.eqb c 61 then lcons (TOp BEq) (lex_f words f' r)
+          else if N.eqb c 60 then
+            match r with
+            | c2 :: r2 =>
+                if N.eqb c2 61 then lcons (TOp BLe) (lex_f words f' r2)
+                else if N.eqb c2 62 then lcons (TOp BNe) (lex_f words f' r2)
+                else lcons (TOp BLt) (lex_f words f' r)
+            | [] => lcons (TOp BLt) (lex_f words f' [])
+            end
+          else if N.eqb c 62 then
+            match r with
+            | c2 :: r2 =>
+                if N.eqb c2 61 then lcons (TOp BGe) (lex_f words f' r2)
+                else lcons (TOp BGt) (lex_f words f' r)
+            | [] => lcons (TOp BGt) (lex_f words f' [])
+            end
+          else if N.eqb c 39 then
+            match scan_str r with
+            | Some (s, rest) => lcons (TStr s) (lex_f words f' rest)
+            | None => LErr
+            end
+          else if is_digit c then
+            let (ds, rest) := span is_digit cs in
+            match digits_uint ds with
+            | Some u => lcons (TNum (Z.of_N (N.of_uint u))) (lex_f words f' rest)
+            | None => LErr
+            end
+          else if is_alpha c then
+            let (w, rest) := span is_word_char cs in
+            match classify words w with
+            | Some t => lcons t (lex_f words f' rest)
+            | None => LErr
+            end
+          else LErr
+      end
+  end.
+Definition lex (words : list tok) (cs : list N) : lres := lex_f words (S (List.length cs)) cs.
+
+(* the word-like tokens of a schema *)
+Definition keyword_tokens : list tok := [TNot; TIs; TIn; TNull; TFn FMod; TOp BAnd; TOp BOr].
+Definition schema_words (cols : list col) : list tok := keyword_tokens ++ map TCol cols.
+(* a usable word table: every text is a word (letter first), no two tokens share a text *)
+Definition is_word_text (w : list N) : bool :=
+  match w with c :: _ => is_alpha c && forallb is_word_char w | [] => false end.
+Fixpoint distinct_texts (l : list tok) : bool :=
+  match l with
+  | [] => true
+  | t :: r => negb (existsb (fun u => codes_eqb (tok_text t) (tok_text u)) r) && distinct_texts r
+  end.
+Definition is_word_token (t : tok) : bool :=
+  match t with TNot | TIs | TIn | TNull | TFn _ | TOp BAnd | TOp BOr | TCol _ => true | _ => false end.
+Definition words_ok (words : list tok) : bool :=
+  forallb (fun t => is_word_token t && is_word_text (tok_text t)) words && distinct_texts words.
+(* the columns of the correspondence harness' table *)
+Definition harness_cols : list col :=
+  [Col TyNum 0; Col TyNum 1; Col TyNum 2; Col TyStr 0; Col TyStr 1; Col TyBool 0; Col TyBool 1].
+
+(* tokens the lexer can give back *)
+Definition lexable (words : list tok) (t : tok) : bool :=
+  match t with
+  | TLP | TRP | TComma | TNum _ | TStr _ => true
+  | TOp BAnd | TOp BOr => existsb (tok_eqb t) words
+  | TOp _ => true
+  | TSub _ | TBad => false
+  | _ => existsb (tok_eqb t) words
+  end.
+(* all columns of a tree belong to the schema *)
+Fixpoint cols_in (cols : list col) (n : node) : bool :=
+  match n with
+  | NField c => existsb (col_eqb c) cols
+  | NSQLOp _ a b | NSQLModulo a b | NSQLCall2 _ a b | NINSubquery _ a b => cols_in cols a && cols_in cols b
+  | NSQLPrefix _ a => cols_in cols a
+  | _ => true
   end.
 
 (* ================================================================ SQL side *)
@@ -642,22 +789,18 @@ Fixpoint wf (n : node) : bool :=
   | NINSubquery _ a s => wf a && unary_ok a && is_select s
   end.
 
-(* INSubquery.__sqlrepr__ puts no parentheses around "item IN (...)"; when the
-   item's own text starts with "(", SQLOp takes the whole for parenthesised *)
-Definition bare_insub (d : dialect) (n : node) : bool :=
+(* an IN-subquery that renders itself parenthesised (its item's text starts with "(") *)
+Definition closed_insub (d : dialect) (n : node) : bool :=
   match n with NINSubquery _ a _ => is_lp_headed (render d a) | _ => false end.
 
-(* where such an unparenthesised IN-subquery is harmless under table pt *)
+(* the one table-relative condition left: NOT directly over an unparenthesised
+   "item IN (...)" needs NOT to bind no tighter than IN (true of std_table) *)
 Fixpoint safe (pt : ptable) (d : dialect) (n : node) : bool :=
   match n with
-  | NSQLOp (OB o) a b =>
-      safe pt d a && safe pt d b && (if bare_insub d b then Nat.leb (S (p_bin pt o)) (p_in pt) else true)
+  | NSQLOp (OB _) a b | NSQLModulo a b | NSQLCall2 _ a b => safe pt d a && safe pt d b
   | NSQLOp _ a b => safe pt d a
-  | NSQLModulo a b =>
-      safe pt d a && safe pt d b &&
-      (if is_sqlite d && bare_insub d b then Nat.leb (S (p_bin pt BMod)) (p_in pt) else true)
-  | NSQLCall2 _ a b => safe pt d a && safe pt d b
-  | NSQLPrefix PNot a => safe pt d a && (if is_insub a then Nat.leb (p_not pt) (p_in pt) else true)
+  | NSQLPrefix PNot a =>
+      safe pt d a && (if is_insub a && negb (closed_insub d a) then Nat.leb (p_not pt) (p_in pt) else true)
   | NSQLPrefix _ a => safe pt d a
   | NINSubquery _ a _ => safe pt d a
   | _ => true
@@ -672,14 +815,3 @@ Fixpoint no_subquery (n : node) : bool :=
   end.
 
 Definition is_cmp (o : binop) : bool := match kind o with KCmp => true | _ => false end.
-(* the exact trigger class of the open finding: a comparison whose right operand
-   is an IN-subquery with a parenthesised item *)
-Fixpoint no_captured_insub (d : dialect) (n : node) : bool :=
-  match n with
-  | NSQLOp (OB o) a b =>
-      no_captured_insub d a && no_captured_insub d b && negb (is_cmp o && bare_insub d b)
-  | NSQLOp _ a b | NSQLModulo a b | NSQLCall2 _ a b => no_captured_insub d a && no_captured_insub d b
-  | NSQLPrefix _ a => no_captured_insub d a
-  | NINSubquery _ a _ => no_captured_insub d a
-  | _ => true
-  end.
